@@ -1,2 +1,13 @@
 #!/bin/sh
-exit 0
+# Builds the fact extractor and warms the dependency build cache, offline, from files on disk only.
+set -e
+cd "$(dirname "$0")"
+export CARGO_NET_OFFLINE=true
+( cd driver && cargo build --offline )
+python3 - <<'PY'
+import sys
+sys.path.insert(0, '.')
+from savf import engine
+d, th, fresh = engine.extract('/repo', 'all')
+print('facts for tree', th, 'in', d, '(fresh)' if fresh else '(cached)')
+PY
